@@ -28,8 +28,10 @@ type sigOps struct {
 	gotArgs, recvRes func(w *wr)
 	same             func() bool
 	clear            func()
-	mock             func(b *mocker.Builder, cb interface{})
-	mockRet          func(b *mocker.Builder)
+	setArgsReuse     func(r *rd)
+	get              func(b *mocker.Builder) mocker.ExportedMocker
+	retVals          func() []interface{}
+	sentVals         func() []interface{}
 }
 
 var sigs = map[int]*sigOps{}
@@ -150,6 +152,7 @@ func (r *rd) isnil() bool {
 	}
 	return false
 }
+func (r *rd) peeknil() bool { return r.i < len(r.t) && r.t[r.i] == "nil" }
 func (r *rd) expect(s string) {
 	if r.next() != s {
 		panic("expected " + s)
@@ -317,13 +320,24 @@ func TestVerifC01(t *testing.T) {
 			return builders[b]
 		}
 		var obs []string
-		doCall := func(form string, depth int, args, res string) string {
+		var handles [4]mocker.ExportedMocker
+		handle := func(b int, kept bool) mocker.ExportedMocker {
+			if !kept || handles[b] == nil {
+				handles[b] = s.get(builder(b))
+			}
+			return handles[b]
+		}
+		doCall := func(form string, depth int, args, res string, reuse bool) string {
 			s.clear()
 			ranK = ranK[:0]
 			before := lib.OrigRan
 			known := true
 			if p := vh.Catch(func() string {
-				s.setArgs(newRd(args))
+				if reuse {
+					s.setArgsReuse(newRd(args))
+				} else {
+					s.setArgs(newRd(args))
+				}
 				s.setRes(newRd(res))
 				known = s.call(form, depth)
 				return ""
@@ -361,17 +375,25 @@ func TestVerifC01(t *testing.T) {
 			}
 			var o string
 			switch f[0] {
-			case "A":
+			case "A", "Ah":
 				b, k := int(vh.I64(f[1])), int(vh.I64(f[2]))
 				o = vh.Catch(func() string {
-					s.mock(builder(b), s.mk(k, newFin(op.Idx*1000+k)))
+					handle(b, f[0] == "Ah").Apply(s.mk(k, newFin(op.Idx*1000+k)))
 					return "ok"
 				})
-			case "R":
+			case "R", "Rh":
 				b := int(vh.I64(f[1]))
 				o = vh.Catch(func() string {
 					s.setRes(newRd(f[2]))
-					s.mockRet(builder(b))
+					handle(b, f[0] == "Rh").Return(s.retVals()...)
+					return "ok"
+				})
+			case "W", "Wh":
+				b := int(vh.I64(f[1]))
+				o = vh.Catch(func() string {
+					s.setArgs(newRd(f[2]))
+					s.setRes(newRd(f[3]))
+					handle(b, f[0] == "Wh").When(s.sentVals()...).Return(s.retVals()...)
 					return "ok"
 				})
 			case "X":
@@ -384,21 +406,22 @@ func TestVerifC01(t *testing.T) {
 				})
 			case "D":
 				builders[int(vh.I64(f[1]))] = nil
+				handles[int(vh.I64(f[1]))] = nil
 				o = "ok"
 			case "G":
 				churn()
 				o = "ok ## fin=" + finList(op.Idx)
-			case "C":
+			case "C", "Cr":
 				form, depth := f[1], 0
 				if i := strings.IndexByte(form, ':'); i >= 0 {
 					depth, _ = strconv.Atoi(form[i+1:])
 					form = form[:i]
 				}
-				o = doCall(form, depth, f[2], f[3]) + " ## fin=" + finList(op.Idx)
+				o = doCall(form, depth, f[2], f[3], f[0] == "Cr") + " ## fin=" + finList(op.Idx)
 			default:
 				o = "bad-op"
 			}
-			if strings.HasPrefix(o, "panic:") && (f[0] == "A" || f[0] == "R") {
+			if strings.HasPrefix(o, "panic:") && f[0] != "C" && f[0] != "Cr" {
 				o = "rej:" + strings.TrimPrefix(o, "panic:")
 			}
 			obs = append(obs, o)
@@ -406,7 +429,7 @@ func TestVerifC01(t *testing.T) {
 		// cleanup (not part of the history): whatever is still patched is removed, and the original must be back
 		patch.UnpatchAll()
 		if a, r, ok := lastCall(op.Toks); ok {
-			if o := doCall("direct", 0, a, r); o != "orig" {
+			if o := doCall("direct", 0, a, r, false); o != "orig" {
 				obs = append(obs, "LEFTOVER:"+o)
 			}
 		}
@@ -417,9 +440,85 @@ func TestVerifC01(t *testing.T) {
 // lastCall finds the argument/result tokens of the last call step (any well-typed lists will do for the cleanup call).
 func lastCall(toks []string) (a, r string, ok bool) {
 	for i, t := range toks {
-		if t == "C" && i+3 < len(toks) {
+		if (t == "C" || t == "Cr") && i+3 < len(toks) {
 			a, r, ok = toks[i+2], toks[i+3], true
 		}
 	}
 	return
+}
+
+// ---- method values: `b.Func(obj.M)` (goom routes the `-fm` wrapper to the method itself, mocker.go doApply)
+
+type fmT struct{ n int }
+
+//go:noinline
+func (z *fmT) M(a, b int) int {
+	lib.OrigRan++
+	if lib.OrigRan > 1<<40 {
+		println("never")
+	}
+	return a + b + z.n
+}
+
+// TestVerifC01FM: `c01.fm <form> <a> <b> <r>` mocks the method value obj.M with a callback of the method value's own
+// type, calls it in the given form, resets, calls again.
+func TestVerifC01FM(t *testing.T) {
+	out := vh.OpenOut()
+	defer out.Close()
+	for _, op := range vh.ReadOps() {
+		if len(op.Toks) != 5 || op.Toks[0] != "c01.fm" {
+			continue
+		}
+		if sk, err := strconv.Atoi(os.Getenv("VERIF_SKIP")); err == nil && op.Idx <= sk {
+			continue
+		}
+		a, b, r := int(vh.I64(op.Toks[2])), int(vh.I64(op.Toks[3])), int(vh.I64(op.Toks[4]))
+		obj, other := &fmT{n: 1}, &fmT{n: 2}
+		var gotA, gotB, ran int
+		call := func() string {
+			ran = 0
+			before := lib.OrigRan
+			var res int
+			if p := vh.Catch(func() string {
+				switch op.Toks[1] {
+				case "direct":
+					res = obj.M(a, b)
+				case "mv":
+					f := obj.M
+					res = f(a, b)
+				case "other":
+					res = other.M(a, b)
+				case "go":
+					ch := make(chan struct{})
+					go func() { defer close(ch); res = obj.M(a, b) }()
+					<-ch
+				default:
+					return "bad-op"
+				}
+				return ""
+			}); p != "" {
+				return p
+			}
+			switch {
+			case ran == 0 && lib.OrigRan == before+1:
+				return "orig"
+			case ran == 1 && lib.OrigRan == before:
+				return fmt.Sprintf("cb a=%d,%d r=%d", gotA, gotB, res)
+			default:
+				return fmt.Sprintf("anomaly:ran=%d,orig=%d", ran, lib.OrigRan-before)
+			}
+		}
+		bld := mocker.Create()
+		o1 := vh.Catch(func() string {
+			bld.Func(obj.M).Apply(func(x, y int) int { gotA, gotB = x, y; ran++; return r })
+			return ""
+		})
+		if o1 == "" {
+			o1 = call()
+		}
+		bld.Reset()
+		o2 := call()
+		patch.UnpatchAll()
+		out.Put(op.Idx, "%s | %s", o1, o2)
+	}
 }
